@@ -229,6 +229,8 @@ class Structure:
 
         N = len(in_pins)
         M = len(out_pins)
+        self.in_pins = {}
+        self.out_pins = {}
         self.Sproc = S_matrix(N, M, ns=self.ns)
         for i, p in enumerate(in_pins):
             self.in_pins[p] = i
